@@ -284,6 +284,19 @@ func (r *Report) Finish() int {
 		inl = append(inl, n)
 	}
 	sort.Strings(inl)
+	if r.Bounded != nil {
+		for _, bs := range r.Bounded.Samples {
+			if len(samples) < 10 {
+				samples = append(samples, bs)
+			}
+		}
+	}
+	if samples == nil {
+		samples = []interface{}{}
+	}
+	if funcs == nil {
+		funcs = []string{}
+	}
 	cov := map[string]interface{}{
 		"obligations":             nObl,
 		"discharged":              nDis,
@@ -330,6 +343,11 @@ func (r *Report) Finish() int {
 		cov["evaluations"] = nObl + nCover
 		cov["distinct_nontrivial"] = nDis
 		cov["rule"] = "one evaluation = one named proof obligation sent to the solver portfolio; distinct = distinct obligation names; non-trivial = discharged by a solver or by the simplifier"
+		if r.Bounded != nil {
+			cov["evaluations"] = nObl + nCover + r.Bounded.Cases
+			cov["distinct_nontrivial"] = nDis + r.Bounded.Cases - r.Bounded.Failed
+			cov["rule"] = "one evaluation = one named proof obligation sent to the solver portfolio, or one enumerated case of a bounded native harness (" + r.Bounded.Rule + "); the enumerated cases are pairwise distinct by construction (distinct operation sequences / distinct cell assignments); non-trivial = discharged by a solver / run to completion with every check passing"
+		}
 	}
 	ev := map[string]interface{}{
 		"property_id": r.Prop,
